@@ -580,6 +580,8 @@ func (c *codegen) registerGlobals(f *ast.File) {
 					c.emitStoreVar("", id.Name)
 				}
 			}
+			// Declarations inside of a function literal are not global.
+			return false
 		}
 		return true
 	})
@@ -595,6 +597,8 @@ func (c *codegen) convertGlobals(f *ast.File) {
 			return false
 		case *ast.GenDecl:
 			ast.Walk(c, n)
+			// Declarations inside of a function literal are not global.
+			return false
 		}
 		return true
 	})
